@@ -361,7 +361,7 @@ class Bus (objects.DBusObject):
         )
 
     def dbus_GetId(self):
-        return self.uuid
+        return self.uuid.decode('ascii')
 
     def dbus_RequestName(self, name, flags, dbusCaller=None):
         caller = self.clients[dbusCaller]
